@@ -6,6 +6,9 @@ ROOT = os.path.dirname(os.path.dirname(os.path.abspath(__file__)))
 for d in sys.argv[1:]:
     d = d.rstrip('/')
     out = subprocess.run([ROOT + '/tools/seed_run.sh', d, 'quick'], capture_output=True, text=True).stdout
+    if 'OBSOLETE' in out:
+        print(d, 'obsolete (patch does not apply): outcome left as recorded', flush=True)
+        continue
     det = 'DETECTED' in out
     nf = 'no-failing-input-found' in out
     m = json.load(open(d + '/meta.json'))
